@@ -6,7 +6,7 @@ import re
 from collections import defaultdict
 from contextlib import contextmanager, suppress
 from contextvars import ContextVar
-from copy import copy
+from copy import copy, deepcopy
 from enum import Enum
 from importlib.util import find_spec
 from subprocess import PIPE, Popen
@@ -103,6 +103,7 @@ class ShtabAction(argparse.Action):
         preambles = []
         if shell == "bash":
             preambles = [bash_compgen_typehint.strip().replace("%s", prog)]
+        parser = deepcopy(parser)  # the live parser must stay usable after printing the script
         with prepare_actions_context(shell, prog, preambles):
             shtab_prepare_actions(parser)
         print(shtab.complete(parser, shell, preamble="\n".join(preambles)))
